@@ -90,6 +90,18 @@ CHECKS = {
              "library whose inlining thresholds differ; all are compared with the reference model, which never inlines or simplifies.",
         note="Trusted: reference model. The always-inline build bounds caller growth (6x / 1500 insns) to keep nested call chains finite.",
         design="3/C04"),
+    "C17": dict(
+        technique=TECH + "checking allocator + checking code allocator passed to MIR_init2 (ledger of every block and code region, poisoned "
+                         "quarantine, real page protection with fault attribution), libc memory symbols of the library objects redirected by objcopy, "
+                         "ASan build with the ledger over real malloc blocks",
+        text="Error-free API histories (c2mir compile, MIR text programs, binary round trip into a second context, output, every link interface "
+             "and optimisation level, execution, hand-written shapes for long code and two-label lrefs, finish calls in the documented order) run "
+             "with allocators that check the documented contract on every call: true old size on realloc, no double or foreign free, nothing "
+             "written after free, nothing live and nothing mapped after the finish calls, code written only inside a WRITE_EXEC window, and no "
+             "direct libc allocation from library code.",
+        note="Trusted: the ledger allocators (h/c17_alloc.c). Error paths (MIR error callbacks) are out of scope: the property speaks of error-free "
+             "histories.",
+        design="3/C17"),
     "C20": dict(
         technique=TECH + "differential execution: gcc-compiled mir2c translation of generated programs vs MIR_interp (and the reference model) on "
                          "results, memory, data section and external-call order; translator run under a watchdog and an ASan/assert build",
